@@ -162,6 +162,25 @@ func (sl *stringLexer) peekRest() string {
 	return sl.s[sl.i:]
 }
 
+// groupCloses reports whether s, which starts with an opening parenthesis,
+// holds the closing parenthesis of that pattern list.
+func groupCloses(s string) bool {
+	depth := 0
+	for i := 0; i < len(s); i++ {
+		switch s[i] {
+		case '\\':
+			i++
+		case '(':
+			depth++
+		case ')':
+			if depth--; depth == 0 {
+				return true
+			}
+		}
+	}
+	return false
+}
+
 func regexpNext(sb *strings.Builder, sl *stringLexer, mode Mode) error {
 	c := sl.next()
 	if mode&ExtendedOperators != 0 {
@@ -173,6 +192,12 @@ func regexpNext(sb *strings.Builder, sl *stringLexer, mode Mode) error {
 		case '!', '?', '*', '+', '@':
 			if sl.peekNext() != '(' {
 				break
+			}
+			if !groupCloses(sl.peekRest()) {
+				// Like Bash, an operator whose pattern list is never
+				// closed is an ordinary character, even '*' and '?'.
+				sb.WriteString(regexp.QuoteMeta(string(op)))
+				return nil
 			}
 			start := sl.i - 1       // position of the operator
 			sb.WriteRune(sl.next()) // (
